@@ -3,6 +3,7 @@
 package main
 
 import (
+	"context"
 	"crypto/ecdsa"
 	"crypto/sha256"
 	"fmt"
@@ -31,6 +32,9 @@ import (
 //	po <own> <pvkind> <pv> <kind> <nkeys> <resp> | ok keys=<hex> started=<0|1> / err    processOffer return value
 //	e2e <ownO> <ownR> <tamper> <keys> <flags> <contents> | ok reply=<hex> enq=<keys>/<contents> or enq=none
 //	     receiver handles the offer, the reply is (optionally) tampered with, the offerer processes it and streams over real uTP
+//	inflight3 <K> <L> | ok o1=<codes> o2=<codes> o3=<codes> o4=<codes> d1=<0|1> d2=<0|1>
+//	     version-1 receiver, real sender: O1 = [K] accepted, the sender opens the uTP stream and stalls; O2 = [K, L] arrives and
+//	     its transfer completes; O3 = [K] while the first transfer is still running; then the first transfer completes; O4 = [K]
 //	race <n> | ok second=<codes>        two back-to-back version-1 offers of the same fresh keys, codes of the second reply
 func init() { registry["C09"] = runC09 }
 
@@ -641,6 +645,82 @@ func c09e2e(c *Ctx, key *ecdsa.PrivateKey, ownO, ownR []byte, tamper string, nke
 	}
 }
 
+// c09talkOffer: a real TALKREQ OFFER from node B to node R; returns the ACCEPT verdict bytes and the connection id.
+func c09talkOffer(B, R *c09node, keys [][]byte) ([]byte, uint16, bool) {
+	ob, err := (&portalwire.Offer{ContentKeys: keys}).MarshalSSZ()
+	if err != nil {
+		panic(err)
+	}
+	resp, err := B.n.P.DiscV5.TalkRequest(R.n.Self(), string(portalwire.History), append([]byte{portalwire.OFFER}, ob...))
+	if err != nil || len(resp) < 7 || resp[0] != portalwire.ACCEPT {
+		return nil, 0, false
+	}
+	return resp[7:], uint16(resp[1])<<8 | uint16(resp[2]), true
+}
+
+// c09inflight3: the in-flight mark of a running transfer must survive other offers that overlap with it and finish first.
+func c09inflight3(c *Ctx, K, L []byte) {
+	R := c09nodeFor(c, []byte{0, 1}, 50, 8, [][]byte{K, L}, "11")
+	defer R.n.Stop()
+	B := c09newNode(c, []byte{1}, 50, 8, 255)
+	defer B.n.Stop()
+	head := fmt.Sprintf("inflight3 %s %s", hx(K), hx(L))
+	c.Count("inflight3")
+	if B.n.Ping(R.n.Self()) != nil {
+		c.Emit("%s | err 9", head)
+		return
+	}
+	ctx, cancel := context.WithTimeout(context.Background(), 20*time.Second)
+	defer cancel()
+	item := func(b byte) []byte { return portalwire.VerifEncodeContents([][]byte{{b, b, b}}) }
+	waitEl := func() int {
+		select {
+		case <-R.q:
+			return 1
+		case <-time.After(8 * time.Second):
+			return 0
+		}
+	}
+	o1, id1, ok1 := c09talkOffer(B, R, [][]byte{K})
+	if !ok1 || id1 == 0 {
+		c.Emit("%s | err 1", head)
+		return
+	}
+	conn1, err := B.n.P.Utp.DialWithCid(ctx, R.n.Self(), id1)
+	if err != nil {
+		c.Emit("%s | err 2", head)
+		return
+	}
+	time.Sleep(300 * time.Millisecond) // the first receive goroutine sits in ReadToEOF, K is marked
+	o2, id2, ok2 := c09talkOffer(B, R, [][]byte{K, L})
+	d2 := 0
+	if ok2 && id2 != 0 {
+		if conn2, err := B.n.P.Utp.DialWithCid(ctx, R.n.Self(), id2); err == nil {
+			n := 0
+			for _, code := range o2 {
+				if code == 0 {
+					n++
+				}
+			}
+			payload := []byte{}
+			for i := 0; i < n; i++ {
+				payload = append(payload, item(2)...)
+			}
+			conn2.Write(ctx, payload)
+			conn2.Close()
+			d2 = waitEl()
+		}
+	}
+	time.Sleep(300 * time.Millisecond) // the second goroutine has returned and run its deferred un-marking
+	o3, _, _ := c09talkOffer(B, R, [][]byte{K})
+	conn1.Write(ctx, item(1))
+	conn1.Close()
+	d1 := waitEl()
+	time.Sleep(300 * time.Millisecond)
+	o4, _, _ := c09talkOffer(B, R, [][]byte{K})
+	c.Emit("%s | ok o1=%s o2=%s o3=%s o4=%s d1=%d d2=%d", head, hx(o1), hx(o2), hx(o3), hx(o4), d1, d2)
+}
+
 // c09race: two version-1 offers of the same fresh in-range keys, back to back from one goroutine.
 func c09race(c *Ctx, key *ecdsa.PrivateKey, n int) {
 	R := c09newNode(c, []byte{0, 1}, 50, 8, 255)
@@ -702,6 +782,8 @@ func c09replay(c *Ctx, lines []string) {
 			})
 		case "e2e":
 			c09e2e(c, key, unhx(f[1]), unhx(f[2]), f[3], len(unhxl(f[5])), f[4], false, &c09given{unhxl(f[5]), f[6], unhxl(f[7])})
+		case "inflight3":
+			c09inflight3(c, unhx(f[1]), unhx(f[2]))
 		case "race":
 			c09race(c, key, atoi(f[1]))
 		}
@@ -930,5 +1012,18 @@ func runC09(c *Ctx) {
 	}
 	for i := 0; i < 6; i++ {
 		c09race(c, key, 1+rg.Intn(3))
+	}
+	nin := 2
+	if c.Tier == "thorough" {
+		nin = 12
+	}
+	for i := 0; i < nin; i++ {
+		// both keys in range of one receiver: with radius 2^255 that means the same top bit of the content id
+		K := append([]byte{0x61}, rg.Bytes(7)...)
+		L := append([]byte{0x62}, rg.Bytes(7)...)
+		for c09cid(L)[0]&0x80 != c09cid(K)[0]&0x80 {
+			L = append([]byte{0x62}, rg.Bytes(7)...)
+		}
+		c09inflight3(c, K, L)
 	}
 }
